@@ -6,7 +6,7 @@ from props import solver_common as sc
 
 ID = 'C17'
 PROPS_FILE = 'Props/C17.v'
-MODEL_FILES = ['Solver/Solver.v', 'Solver/SolverF.v', 'Solver/SolveAll.v', 'Tracer/Tracer.v', 'Tracer/TracerSolve.v', 'Tracer/TracerNames.v', 'Tracer/TracerF.v']
+MODEL_FILES = ['Solver/Solver.v', 'Solver/SolverF.v', 'Solver/SolveAll.v', 'Tracer/Tracer.v', 'Tracer/TracerSolve.v', 'Tracer/TracerNames.v', 'Tracer/TracerLinked.v', 'Tracer/TracerF.v']
 K_NAME = ('K_tracer (Tracer.traced_solve_t, TracerSolve.traced_solve_period_all / traced_solve_all — solve() from its start= / end= LABELS: '
           'validation, iter_periods defaults from lags / leads, list.index lookup — and their untraced twins Solver.solve_t_M, '
           'SolveAll.solve_period_M / solve_M, instantiated with PrimFloat, vs TracerMixin over scripted and parser-built models: state, '
@@ -142,6 +142,8 @@ def impl(case):
         return impl_parsed(case)
     if case.get('kind') == 'init':
         return impl_init(case)
+    if case.get('kind') == 'linker':
+        return impl_linker(case)
     cls = st.make_classes(case['nvars'], case['check'], case['endo'], case.get('lags', 0), case.get('leads', 0), case.get('trace_variables'))
     n = case['n']
     span = list(range(2000, 2000 + n))
@@ -178,6 +180,136 @@ def impl(case):
 
 
 DIRECT = ('trace_t', 'trace_period')
+
+
+# --------------------------------------------------------------------------- traced models as submodels of a linker
+def impl_linker(case):
+    """Two linkers over the same scripted submodels (TracerMixin on top): one called with trace= / reset=, one without."""
+    import scripted_tracer as st
+    import fsic
+    n = case['n']
+    span = list(range(2000, 2000 + n))
+
+    def build():
+        ms = {}
+        for j, sub in enumerate(case['subs']):
+            cls = st.make_classes(sub['nvars'], sub['check'], sub['endo'], 0, 0, sub.get('trace_variables'))
+            ms['S%d' % j] = st.instantiate(cls, list(span), sub['vals'], ['-'] * n, [-1] * n, sub['scripts'])
+        return fsic.BaseLinker(ms), ms
+    L, ms = build()
+    U, us = build()
+
+    def run(lk, kw):
+        try:
+            return ['ret', bool(lk.solve_t(case['t'], **kw))]
+        except Exception as ex:
+            return ['raise', type(ex).__name__]
+
+    def subs_state(d):
+        return [{'vals': [[lib.fhex(x) for x in m.__dict__['_V%d' % i]] for i in range(sub['nvars'])],
+                 'status': [str(x) for x in m.__dict__['_status']], 'iters': [int(x) for x in m.__dict__['_iterations']],
+                 'passes': sum(1 for e in m.__dict__['_evlog'] if e[0] == 'pass'),
+                 'hooks': sorted({e[0] for e in m.__dict__['_evlog']}),
+                 'raised': [list(r) for r in m.__dict__['_raised']]}
+                for sub, m in zip(case['subs'], d.values())]
+    steps = []
+    for call in case['calls']:
+        o = call['opts']
+        kw = dict(min_iter=o['min_iter'], max_iter=o['max_iter'], tol=lib.unhex(o['tol']), failures=o['failures'], errors=o['errors'],
+                  catch_first_error=o['catch_first_error'])
+        tkw = dict(kw)
+        a = call.get('trace', ['omit'])
+        if a[0] != 'omit':
+            tkw['trace'] = py_trace(a)
+        if call.get('reset') is not None:
+            tkw['reset'] = bool(call['reset'])
+        ncols = [len(m.__dict__['_columns']) for m in ms.values()]
+        out_m = run(L, tkw)
+        out_u = run(U, kw)
+        st_m, st_u = subs_state(ms), subs_state(us)
+        for j, m in enumerate(ms.values()):
+            st_m[j]['traces'] = st.observe_traces(m, lib.fhex)
+            st_m[j]['columns'] = [[c[0], c[1], c[2], [lib.fhex(x) for x in c[3]]] for c in m.__dict__['_columns'][ncols[j]:]]
+        for j, m in enumerate(us.values()):
+            st_u[j]['traces_untouched'] = all(len(t.index) == 0 for t in m.__dict__['_trace'])
+        steps.append({'out': out_m, 'twin_out': out_u, 'subs': st_m, 'twin_subs': st_u,
+                      'lstatus': [str(x) for x in L.status], 'literations': [int(x) for x in L.iterations],
+                      'twin_lstatus': [str(x) for x in U.status], 'twin_literations': [int(x) for x in U.iterations]})
+    return {'lsteps': steps}
+
+
+def oracle_linker(case, obs):
+    """C17 for a traced submodel inside a linker: the traced linker run equals the untraced one, tracing off writes nothing,
+    and what IS recorded are the submodel's values after each linker pass, labelled with the pass number (the linker never
+    calls the submodel's solve_t / solve_t_before / solve_t_after, so there is no start / before / 0 / end)."""
+    fails = []
+
+    def bad(sig, what):
+        fails.append({'sig': sig, 'what': what})
+    n, t = case['n'], case['t']
+    p = t if t >= 0 else t + n
+    prev_tr = [[copy.deepcopy(EMPTY) for _ in range(n)] for _ in case['subs']]
+    prev_passes = [0] * len(case['subs'])
+    for ci, (call, s) in enumerate(zip(case['calls'], obs['lsteps'])):
+        a = call.get('trace', ['omit'])
+        on = truthy(a)
+        same = (s['out'] == s['twin_out'] and s['lstatus'] == s['twin_lstatus'] and s['literations'] == s['twin_literations']
+                and all(x[k] == y[k] for x, y in zip(s['subs'], s['twin_subs']) for k in ('vals', 'status', 'iters', 'passes', 'hooks', 'raised')))
+        if any(not y['traces_untouched'] for y in s['twin_subs']):
+            bad('C17|TracerMixin|twin-trace-written', 'linker call %d: a submodel of the untraced linker has a non-empty Trace' % ci)
+        if not same:
+            bad('C17|TracerMixin|traced-differs-from-untraced', 'linker call %d (trace=%r): traced and untraced linker runs differ: %s vs %s' % (ci, a, s['out'], s['twin_out']))
+            break
+        for j, (sub, x) in enumerate(zip(case['subs'], s['subs'])):
+            names = names_of({'nvars': sub['nvars'], 'trace_variables': sub.get('trace_variables')}, a)
+            before, after = prev_tr[j], x['traces']
+            if not on:
+                if after != before:
+                    bad('C17|TracerMixin|trace-written-with-tracing-off', 'linker call %d: a submodel Trace changed although tracing is off' % ci)
+            else:
+                if any(after[q] != before[q] for q in range(n) if q != p):
+                    bad('C17|TracerMixin|other-period-trace-changed', 'linker call %d: the Trace of another period changed' % ci)
+                k = x['passes'] - prev_passes[j]
+                ok_passes = k - (1 if len(x['raised']) else 0)
+                if not call.get('reset'):
+                    nb = len(before[p]['index'])
+                    new_idx = after[p]['index'][nb:]
+                    new_val = after[p]['values'][len(before[p]['values']):]
+                    if after[p]['index'][:nb] != before[p]['index'] or new_idx != list(range(1, ok_passes + 1)):
+                        bad('C17|TracerMixin|linker-label-sequence', 'linker call %d submodel %d: labels %s, expected the pass numbers 1..%d appended to %s' % (ci, j, after[p]['index'], ok_passes, before[p]['index']))
+                    else:
+                        cols = {c[2]: c[3] for c in x['columns'] if c[0] == 'pass'}
+                        for i_, v in enumerate(new_val):
+                            if cols.get(i_ + 1) is None or v != [cols[i_ + 1][q] for q in names]:
+                                bad('C17|TracerMixin|snapshot-j', 'linker call %d submodel %d: snapshot %d = %s, values after pass %d = %s' % (ci, j, i_ + 1, v, i_ + 1, cols.get(i_ + 1)))
+                                break
+            prev_tr[j] = after
+            prev_passes[j] = x['passes']
+    return fails
+
+
+def c_lcases(case, obs):
+    import scripted
+    out = []
+    n = case['n']
+    prev = [{'vals': sub['vals'], 'traces': [copy.deepcopy(EMPTY) for _ in range(n)], 'passes': 0} for sub in case['subs']]
+    for call, s in zip(case['calls'], obs['lsteps']):
+        for j, (sub, x, y) in enumerate(zip(case['subs'], s['subs'], s['twin_subs'])):
+            tv = sub.get('trace_variables')
+            cfg = '(mkTCfg %s)' % ('None' if tv is None else '(Some %s)' % lib.clist(lib.cnat(i) for i in tv))
+            k = x['passes'] - prev[j]['passes']
+
+            def exn_of(st_):
+                r = st_['raised']
+                return 'None' if not r else '(Some %s)' % lib.cZ(scripted.CAUSE_TAG.get(r[-1][3], 99))
+            cvals = lambda vv: lib.clist(lib.clist(lib.cfloat(h) for h in row) for row in vv)      # noqa: E731
+            out.append('(mkLCase %s %s %s %s %s %s %s %s %s %s %s %s %s %s)' % (
+                sc.c_scripts(sub['scripts']), cfg, c_targ(call.get('trace', ['omit'])), lib.cbool(bool(call.get('reset'))), lib.cnat(n),
+                lib.cZ(case['t']), lib.cnat(k), cvals(prev[j]['vals']), lib.clist(c_trace(t) for t in prev[j]['traces']),
+                cvals(x['vals']), lib.clist(c_trace(t) for t in x['traces']), exn_of(x), cvals(y['vals']), exn_of(y)))
+            prev[j] = {'vals': x['vals'], 'traces': x['traces'], 'passes': x['passes']}
+            # (a submodel whose pass raised keeps its `raised` record: later calls of the case are not generated after a raise)
+    return out
 
 
 # --------------------------------------------------------------------------- TracerMixin.__init__
@@ -365,7 +497,7 @@ def _full(case, obs):
 # --------------------------------------------------------------------------- Coq encoding
 PREAMBLE = '''From Coq Require Import PrimFloat ZArith List Bool.
 Import ListNotations.
-Require Import Fsic.Base.PyBase Fsic.Solver.Solver Fsic.Solver.SolverF Fsic.Solver.SolveAll Fsic.Tracer.Tracer Fsic.Tracer.TracerSolve Fsic.Tracer.TracerNames Fsic.Tracer.TracerF.
+Require Import Fsic.Base.PyBase Fsic.Solver.Solver Fsic.Solver.SolverF Fsic.Solver.SolveAll Fsic.Tracer.Tracer Fsic.Tracer.TracerSolve Fsic.Tracer.TracerNames Fsic.Tracer.TracerLinked Fsic.Tracer.TracerF.
 Open Scope float_scope. Open Scope Z_scope.
 '''
 
@@ -500,7 +632,7 @@ def c_icase(case, obs):
 
 
 def correspond(cases, obs, tag, tier):
-    main = [i for i, c in enumerate(cases) if c.get('kind') != 'init']
+    main = [i for i, c in enumerate(cases) if c.get('kind') not in ('init', 'linker')]
     items = [c_case17(_full(cases[i], obs[i]), obs[i]) for i in main]
     bad, errs = lib.run_coq_cases(tag, PREAMBLE, items, 'bad_indices check_tcase17 0%nat cs', shard=250)
     bad = [main[j] for j in bad]
@@ -509,10 +641,20 @@ def correspond(cases, obs, tag, tier):
         ibad, ierrs = lib.run_coq_cases(tag + 'init', PREAMBLE, [c_icase(cases[i], obs[i]) for i in inits], 'bad_indices check_icase 0%nat cs', shard=2000)
         bad = sorted(set(bad) | {inits[j] for j in ibad})
         errs = errs + ierrs
+    litems, lowner = [], []
+    for i, (c, o) in enumerate(zip(cases, obs)):
+        if c.get('kind') == 'linker':
+            for term in c_lcases(c, o):
+                litems.append(term)
+                lowner.append(i)
+    if litems and not errs:
+        lbad, lerrs = lib.run_coq_cases(tag + 'linked', PREAMBLE, litems, 'bad_indices check_lcase 0%nat cs', shard=400)
+        bad = sorted(set(bad) | {lowner[j] for j in lbad})
+        errs = errs + lerrs
     # the names-object model: which list object each freshly created Trace keeps
     aitems, owner = [], []
     for i, (c, o) in enumerate(zip(cases, obs)):
-        if c.get('kind') == 'init':
+        if c.get('kind') in ('init', 'linker'):
             continue
         for term in c_acases(_full(c, o), o):
             aitems.append(term)
@@ -525,6 +667,8 @@ def correspond(cases, obs, tag, tier):
 
 
 def explain(case, obs):
+    if case.get('kind') == 'linker':
+        return 'linker case: model terms (check_lcase) ' + ' ;; '.join(c_lcases(case, obs))[:3000]
     if case.get('kind') == 'init':
         return lib.coq_eval('explain17', PREAMBLE, 'tracer_init float %s %s %s' % (
             lib.clist(lib.cnat(i) for i in [0, 1] + [2 + i for i in range(case['nvars'])]), lib.cnat(_init_id(case, _init_name(case))), lib.cnat(case['n'])))[-2000:]
@@ -585,6 +729,8 @@ def _is_prefix_of_run(idx):
 
 def oracle(case, obs):
     fails = []
+    if case.get('kind') == 'linker':
+        return oracle_linker(case, obs)
     if case.get('kind') == 'init':
         return fails            # construction is outside the property's text: the model speaks (K), the oracle has nothing to say
 
@@ -762,6 +908,8 @@ def _check_shapes(case, call, ci, s, prev, names, periods, bad):
 def nontrivial(case, obs):
     if case.get('kind') == 'init':
         return False
+    if case.get('kind') == 'linker':
+        return any(x['passes'] >= 2 for s in obs['lsteps'] for x in s['subs']) or any(s['out'][0] == 'raise' for s in obs['lsteps'])
     for s in obs['steps']:
         if s['out'][0] == 'raise':
             return True
@@ -777,6 +925,9 @@ def nontrivial(case, obs):
 def bucket(case, obs):
     if case.get('kind') == 'init':
         return 'init/' + obs['init'][0]
+    if case.get('kind') == 'linker':
+        o = obs['lsteps'][-1]['out']
+        return 'linker/%dsubs/%s/%s' % (len(case['subs']), case['calls'][0].get('trace', ['omit'])[0], o[1] if o[0] == 'raise' else 'ret')
     c0 = case['calls'][0]
     last = obs['steps'][-1]['out']
     b = [c0['entry'], c0.get('trace', ['omit'])[0], 'reset=%s' % c0.get('reset'), '%dcalls' % len(case['calls'])]
@@ -788,6 +939,17 @@ def bucket(case, obs):
 
 def shrink_candidates(case):
     if case.get('kind') == 'init':
+        return
+    if case.get('kind') == 'linker':
+        if len(case['calls']) > 1:
+            c = copy.deepcopy(case)
+            del c['calls'][-1]
+            yield c
+        if len(case['subs']) > 1:
+            for j in range(len(case['subs'])):
+                c = copy.deepcopy(case)
+                del c['subs'][j]
+                yield c
         return
     if len(case['calls']) > 1:
         for i in range(len(case['calls'])):
@@ -979,6 +1141,9 @@ def gen(rng, tier):
     n_rand = 3800 if tier == 'quick' else 32000
     for _ in range(n_rand):
         cases.append(_random_case(rng, scen))
+    # ---- traced models as submodels of a linker
+    for _ in range(300 if tier == 'quick' else 3000):
+        cases.append(_linker_case(rng))
     # ---- parser-built models: the inner _evaluate is fsic's generated code
     for _ in range(700 if tier == 'quick' else 6000):
         cases.append(_parsed_case(rng))
@@ -1031,6 +1196,53 @@ def _parsed_case(rng):
     else:
         c['calls'] = [_call(entry, p, n, o, a, reset, neg=rng.random() < 0.3)]
     return c
+
+
+def _linker_case(rng):
+    n = rng.randint(1, 4)
+    t = rng.randrange(n)
+    if rng.random() < 0.25:
+        t -= n
+    p = t if t >= 0 else t + n
+    subs = []
+    faulty = rng.random() < 0.15
+    for j in range(rng.choice([1, 1, 2, 2, 3])):
+        nv = rng.choice([1, 2, 2, 3])
+        check = rng.sample(range(nv), rng.randint(1, min(2, nv)))
+        tv = None
+        if rng.random() < 0.2:
+            tv = rng.sample(range(nv), rng.randint(0, nv))
+        passes = _rand_passes(rng, nv, check, sc.PALETTE_FINITE)
+        if not faulty:          # keep only value-writing actions (the faulting stream keeps warnings and raises)
+            passes = [[a for a in acts if a[0] in ('set', 'affine')] for acts in passes]
+        subs.append({'nvars': nv, 'check': check, 'endo': list(check), 'trace_variables': tv,
+                     'vals': [[H(0.25 * (i + 1) + 0.125 * q) for q in range(n)] for i in range(nv)],
+                     'scripts': {str(p): {'passes': passes}} if rng.random() < 0.9 else {}})
+    nv0 = min(sub['nvars'] for sub in subs)
+    q = rng.random()
+    if q < 0.15:
+        a = rng.choice([['omit'], ['none'], ['flag', False], ['list', []]])
+    elif q < 0.6:
+        a = ['flag', True]
+    elif q < 0.8:
+        a = ['name', rng.randrange(nv0)]
+    else:
+        a = [rng.choice(['list', 'tuple']), [rng.randrange(nv0) for _ in range(rng.randint(1, 2))]]
+    mx = rng.randint(0, 5)
+    o = _opts(min_iter=rng.randint(0, mx + 1) if rng.random() < 0.9 else mx + 2, max_iter=mx, failures=rng.choice(['raise', 'ignore', 'ignore']),
+              errors=rng.choice(['raise', 'raise', 'skip', 'ignore', 'replace']), catch_first_error=rng.random() < 0.6)
+    if rng.random() < 0.2:
+        o['tol'] = H(rng.choice([1e-10, 0.5, 1.0]))
+    call = {'opts': o}
+    if a[0] != 'omit':
+        call['trace'] = a
+    r = rng.choice([None, None, False, True])
+    if r is not None:
+        call['reset'] = r
+    calls = [call]
+    if not faulty and rng.random() < 0.4:
+        calls.append(copy.deepcopy(call))                  # the same call again: the snapshots accumulate (or are reset)
+    return {'kind': 'linker', 'n': n, 't': t, 'subs': subs, 'calls': calls}
 
 
 def _direct_call(rng, n, nv, focus):
